@@ -379,9 +379,11 @@ const prelude = `(set-option :produce-models true)
 (declare-fun sat (Str Int) Int)
 (declare-const str_empty Str)
 (assert (= (slen str_empty) 0))
-(assert (forall ((s Str)) (! (>= (slen s) 0) :pattern ((slen s)))))
+(assert (forall ((s Str)) (! (and (>= (slen s) 0) (< (slen s) 4611686018427387904)) :pattern ((slen s)))))
 (assert (forall ((s Str)) (! (=> (= (slen s) 0) (= s str_empty)) :pattern ((slen s)))))
 (assert (forall ((s Str) (k Int)) (! (and (<= 0 (sat s k)) (<= (sat s k) 255)) :pattern ((sat s k)))))
+(declare-const alim Int)
+(assert (and (>= alim 16777216) (< alim 1152921504606846976)))
 (declare-fun slt (Str Str) Bool)
 (declare-fun scat (Str Str) Str)
 (declare-fun ssub (Str Int Int) Str)
